@@ -58,13 +58,19 @@ func headerClass(it *vh.Item) string {
 	if it.K == vh.KMap {
 		n /= 2
 	}
+	sz := ""
+	if n >= 256 {
+		sz = "-ge256"
+	} else if n >= 24 {
+		sz = "-ge24"
+	}
 	switch {
 	case it.F == vh.Findef:
-		return "indef"
+		return "indef" + sz
 	case it.F == vh.MinForm(n):
-		return "min"
+		return "min" + sz
 	}
-	return "wide"
+	return "wide" + sz
 }
 
 type comps struct {
@@ -219,14 +225,15 @@ func coqObserved(offs *common.BlockTransactionOffsets, err error) string {
 }
 
 type runner struct {
-	c            *vh.Ctx
-	cf           *vh.CaseFile
-	accepted     int
-	rejected     int
-	nonMinimal   int
-	coqBytes     int
-	coqBudget    int
-	missingComps int
+	c              *vh.Ctx
+	cf             *vh.CaseFile
+	accepted       int
+	rejected       int
+	nonMinimal     int
+	coqBytes       int
+	coqBudget      int
+	missingComps   int
+	rejectedLabels []string
 }
 
 func spanEq(r common.ByteRange, s blk.Span) bool {
@@ -354,6 +361,9 @@ func (r *runner) runBlock(label string, typ uint, root *vh.Item, toCoq bool) boo
 			r.c.Res.Violate("monitor", "streaming:error-on-accepted-block", err.Error(), rc)
 		} else {
 			r.rejected++
+			if len(r.rejectedLabels) < 12 {
+				r.rejectedLabels = append(r.rejectedLabels, label+": "+e2.Error())
+			}
 		}
 		return false
 	}
@@ -417,6 +427,53 @@ func (r *runner) runBlock(label string, typ uint, root *vh.Item, toCoq bool) boo
 	return true
 }
 
+// boundaryCorpus: deterministic (every seed runs all of it in Go); the seed picks which of the
+// small ones are also evaluated in Coq, a fixed regression set always is
+func (r *runner) boundaryCorpus(fx []blk.Fixture) {
+	saved, used := r.coqBudget, r.coqBytes
+	r.coqBudget = r.coqBytes + r.c.Pick(50_000, 500_000)
+	always := map[string]bool{
+		"conway:boundary:outputs:24:indef": true, "alonzo:boundary:outputs:25:wide1": true,
+		"shelley:boundary:txs:24:indef": true, "mary:boundary:txs:23:wide1": true,
+		"babbage:boundary:witness-components:24:indef": true, "conway:boundary:witness-components:24:wide1": true,
+	}
+	for _, f := range fx {
+		if f.Type == 1 {
+			for _, n := range blk.BoundaryCounts {
+				for mode := 0; mode < blk.NForms; mode++ {
+					b, payload, outs := blk.ByronWithTxs(f.Root, n, []int{1, 24, 30}[(n+mode)%3])
+					blk.SetForm(payload, mode)
+					for _, o := range outs {
+						blk.SetForm(o, (mode+n)%blk.NForms)
+					}
+					r.runBlock(fmt.Sprintf("byron:boundary:txs:%d:%s", n, blk.FormNames[mode]), f.Type, b, false)
+				}
+			}
+			continue
+		}
+		for level := 0; level < 3; level++ {
+			for _, n := range blk.BoundaryCounts {
+				for mode := 0; mode < blk.NForms; mode++ {
+					for _, bb := range blk.BoundaryBlocks(f, level, n, mode) {
+						root := bb.Root
+						if r.c.Rng.Intn(3) == 0 { // also vary the forms of everything else
+							root = vh.Reform(r.c.Rng, root, vh.ReformOpts{Containers: true, Indef: true, Prob: 10})
+							// Reform may have changed the boundary container too: that is fine, the
+							// label then only names the intended form
+						}
+						toCoq := bb.Small && (always[bb.Label] || r.c.Rng.Intn(r.c.Pick(25, 4)) == 0)
+						if always[bb.Label] {
+							root = bb.Root
+						}
+						r.runBlock(bb.Label, bb.Type, root, toCoq)
+					}
+				}
+			}
+		}
+	}
+	r.coqBudget = saved + (r.coqBytes - used) // the boundary cases have their own Coq budget
+}
+
 var reformOpts = []vh.ReformOpts{
 	{Containers: true, Indef: true, Prob: 30},
 	{Containers: true, Indef: true, Ints: true, Strings: true, Tags: true, Prob: 15},
@@ -432,7 +489,7 @@ func run(c *vh.Ctx) error {
 		"Byron and Dijkstra layouts are monitored against the independent span oracle but not modelled in Coq",
 		"uint32 offset arithmetic is modelled in nat; no wrap below 4 GiB by C07_in_range",
 	}
-	r := &runner{c: c, coqBudget: c.Pick(110_000, 1_200_000)}
+	r := &runner{c: c, coqBudget: c.Pick(80_000, 1_000_000)}
 	r.cf = c.NewCaseFile("c07", header)
 	r.cf.SetShardSize(c.Pick(12, 40))
 	if c.Replay != "" {
@@ -465,6 +522,9 @@ func run(c *vh.Ctx) error {
 		w.F = vh.Findef
 		r.runBlock(f.Name+":outer-9f", f.Type, w, false)
 	}
+	// containers whose child count crosses the header-width boundaries (23/24, 255/256) in
+	// minimal / widened / 8-byte / indefinite form, at every level the walkers handle
+	r.boundaryCorpus(fx)
 	// whole blocks under random forms
 	for round := 0; round < c.Pick(3, 25); round++ {
 		for _, f := range fx {
@@ -496,6 +556,9 @@ func run(c *vh.Ctx) error {
 		fmt.Sprintf("accepted encodings %d (with >=1 non-minimal/indefinite container: %d = %d%%), rejected by the era decoder (not in the quantifier) %d", r.accepted, r.nonMinimal, pct, r.rejected),
 		fmt.Sprintf("witness components present in the tree but without a reported range (inside tag-258 sets, equal bytes under one hash key): %d", r.missingComps),
 		fmt.Sprintf("Coq cases: %d (%d KB of block literals)", c.Res.CoqCases, r.coqBytes/1000))
+	if len(r.rejectedLabels) > 0 {
+		c.Res.Notes = append(c.Res.Notes, "first rejected encodings: "+fmt.Sprint(r.rejectedLabels))
+	}
 	if pct < 60 {
 		c.Res.Violate("correspondence", "generator-too-canonical", fmt.Sprintf("only %d%% of accepted cases have a non-minimal container", pct), nil)
 	}
